@@ -106,20 +106,53 @@ type life struct {
 	targets []string
 	st      *stats
 	open    []*lifeRPC
-	snap    map[string]leafSnap
-	dirty   bool
+	// snaps: the content of each target when it was last looked at; dirty: the
+	// targets a step has addressed since (only those may differ from snaps).
+	snaps map[string]map[string]leafSnap
+	dirty map[string]bool
 	// what the server's statistics have been asked to track so far
 	modes map[string]bool
 	peers map[int]bool
 	hooks int
 }
 
-func (l *life) snapshot() map[string]leafSnap {
-	if l.dirty || l.snap == nil {
-		l.snap = dataSnapshot(l.c, l.targets)
-		l.dirty = false
+// current returns the content of one target, looking only if a step addressed it since the last look.
+func (l *life) current(target string) map[string]leafSnap {
+	if sn, ok := l.snaps[target]; ok && !l.dirty[target] {
+		return sn
 	}
-	return l.snap
+	sn := dataSnapshot(l.c, []string{target})
+	l.snaps[target] = sn
+	delete(l.dirty, target)
+	return sn
+}
+
+func (l *life) mark(target string) { l.dirty[target] = true }
+
+func (l *life) markAll() {
+	for _, tg := range l.targets {
+		l.dirty[tg] = true
+	}
+}
+
+// audit looks at the targets (all of them by default) again: a target that no
+// step has addressed since the last look must hold exactly what it held then.
+func (l *life) audit(what string, targets ...string) error {
+	if len(targets) == 0 {
+		targets = l.targets
+	}
+	for _, tg := range targets {
+		old, had := l.snaps[tg]
+		wasDirty := l.dirty[tg]
+		l.dirty[tg] = true
+		now := l.current(tg)
+		if had && !wasDirty {
+			if msg, ok := sameSnapshot(old, now); !ok {
+				return fmt.Errorf("%s changed what the cache stores for target %q, which it does not address: %s", what, tg, msg)
+			}
+		}
+	}
+	return nil
 }
 
 func sameSnapshot(a, b map[string]leafSnap) (string, bool) {
@@ -204,7 +237,7 @@ func (l *life) probe(step int, target string, peerN int) error {
 	if known {
 		l.c.Query(target, []string{"*"}, func([]string, *ctree.Leaf, interface{}) error { want++; return nil })
 	}
-	before := l.snapshot()
+	l.current(target)
 	r := l.start(step, []*pb.SubscribeRequest{req}, peerN, false, "probe: "+fmt.Sprint(req))
 	if err := l.finish(r); err != nil {
 		return err
@@ -234,11 +267,8 @@ func (l *life) probe(step int, target string, peerN int) error {
 		}
 		l.st.label("probe-answered")
 	}
-	l.dirty = true
-	if msg, ok := sameSnapshot(before, l.snapshot()); !ok {
-		return fmt.Errorf("%s changed the cache: %s", what, msg)
-	}
-	return nil
+	// reading must not change what is stored
+	return l.audit(what, target)
 }
 
 func (l *life) ingest(step int, op *LifeOp) error {
@@ -248,24 +278,39 @@ func (l *life) ingest(step int, op *LifeOp) error {
 		return nil
 	}
 	hostileFeatures(n, l.st)
-	before := l.snapshot()
+	tgt := n.GetPrefix().GetTarget()
+	if op.Stamp {
+		tgt = l.targets[op.Target%len(l.targets)]
+	}
+	// a message for a name that is not one of the cache's targets addresses nothing (the audits see to that)
+	named := false
+	for _, tg := range l.targets {
+		named = named || tg == tgt
+	}
+	before := map[string]leafSnap{}
+	if named {
+		before = l.current(tgt)
+	}
 	clone := proto.Clone(n).(*pb.Notification)
 	var gerr error
 	if op.Stamp {
-		gerr = collectorUpdate(l.c, l.targets[op.Target%len(l.targets)], n)
+		gerr = collectorUpdate(l.c, tgt, n)
 		clone.Prefix = proto.Clone(n.Prefix).(*pb.Path)
 	} else {
 		gerr = l.c.GnmiUpdate(n)
 	}
-	l.dirty = true
-	tgt := clone.GetPrefix().GetTarget()
+	if named {
+		l.mark(tgt)
+	}
 	if clone.GetPrefix() != nil && l.c.HasTarget(tgt) && tgt != "*" {
 		l.st.reached = true
 	}
 	if gerr != nil {
 		l.st.label("rejected")
-		if cerr := checkRejected(before, l.snapshot(), clone, tgt, gerr, fmt.Sprintf("the notification of step %d", step)); cerr != nil {
-			return cerr
+		if named {
+			if cerr := checkRejected(before, l.current(tgt), clone, tgt, gerr, fmt.Sprintf("the notification of step %d", step)); cerr != nil {
+				return cerr
+			}
 		}
 	} else {
 		l.st.label("accepted")
@@ -277,7 +322,13 @@ func (l *life) ingest(step int, op *LifeOp) error {
 
 func (l *life) call(op *LifeOp) {
 	tg := l.targets[op.Target%len(l.targets)]
-	l.dirty = true
+	switch op.Call {
+	case "updmeta", "updsize":
+		l.markAll()
+	case "stats":
+	default:
+		l.mark(tg)
+	}
 	switch op.Call {
 	case "sync":
 		l.c.Sync(tg)
@@ -353,7 +404,7 @@ func runLife(t *testing.T, sc *Scenario) (st *stats, err error) {
 	}()
 	synctest.Test(t, func(t *testing.T) {
 		where := func() string { return "setup" }
-		l := &life{st: st, targets: lifeTargets(sc.Targets), modes: map[string]bool{}, peers: map[int]bool{}}
+		l := &life{st: st, targets: lifeTargets(sc.Targets), modes: map[string]bool{}, peers: map[int]bool{}, snaps: map[string]map[string]leafSnap{}, dirty: map[string]bool{}}
 		defer func() {
 			if r := recover(); r != nil {
 				err = fmt.Errorf("panic during %s: %v\n%s", where(), r, trimStack(debug.Stack()))
@@ -412,16 +463,26 @@ func runLife(t *testing.T, sc *Scenario) (st *stats, err error) {
 					}
 				}
 				l.peers[op.Peer] = true
-				before := l.snapshot()
+				// reading must not change what is stored: the targets the request names are looked at before and after
+				var reads []string
+				if len(reqs) > 0 {
+					if tg := reqs[0].GetSubscribe().GetPrefix().GetTarget(); tg == "*" {
+						reads = l.targets
+					} else if l.c.HasTarget(tg) {
+						reads = []string{tg}
+					}
+				}
+				for _, tg := range reads {
+					l.current(tg)
+				}
 				r := l.start(i, reqs, op.Peer, op.NoAuth, short(op.Text, 1500))
 				r.cancel = op.Cancel
 				r.closeAt = i + 1 + op.Hold
-				// reading must not change what is stored
-				l.dirty = true
-				if msg, ok := sameSnapshot(before, l.snapshot()); !ok && r.perr == nil {
-					err = fmt.Errorf("the RPC of step %d (%s) changed the cache: %s", i, r.text, msg)
-					l.open = append(l.open, r)
-					return
+				if len(reads) > 0 && r.perr == nil {
+					if err = l.audit(fmt.Sprintf("the RPC of step %d (%s)", i, r.text), reads...); err != nil {
+						l.open = append(l.open, r)
+						return
+					}
 				}
 				if op.Hold == 0 {
 					err = l.finish(r)
@@ -438,6 +499,10 @@ func runLife(t *testing.T, sc *Scenario) (st *stats, err error) {
 		if err = closeDue(len(sc.Ops) + 1<<30); err != nil {
 			return
 		}
+		where = func() string { return "the audit at the end of the life scenario" }
+		if err = l.audit("a step of the life scenario"); err != nil {
+			return
+		}
 		st.size("life-modes", len(l.modes), 4, 8, 16, 32)
 		st.size("life-peers", len(l.peers), 8, 32)
 		// the server and the cache still work: a fresh value for the first target, asked for by a valid request
@@ -445,7 +510,7 @@ func runLife(t *testing.T, sc *Scenario) (st *stats, err error) {
 		if !l.c.HasTarget(l.targets[0]) {
 			l.c.Add(l.targets[0])
 		}
-		l.dirty = true
+		l.mark(l.targets[0])
 		final := &pb.Notification{Timestamp: 1 << 40, Prefix: &pb.Path{Target: l.targets[0]},
 			Update: []*pb.Update{{Path: &pb.Path{Elem: []*pb.PathElem{{Name: "final"}, {Name: "probe"}}}, Val: &pb.TypedValue{Value: &pb.TypedValue_IntVal{IntVal: 42}}}}}
 		if gerr := l.c.GnmiUpdate(final); gerr != nil {
@@ -453,7 +518,7 @@ func runLife(t *testing.T, sc *Scenario) (st *stats, err error) {
 			return
 		}
 		found := false
-		for _, ls := range l.snapshot() {
+		for _, ls := range l.current(l.targets[0]) {
 			if samePath(ls.path, []string{l.targets[0], "final", "probe"}) {
 				found = true
 			}
